@@ -161,7 +161,7 @@ class ArrN:
         self.elem, self.nullable, self.path, self.elem_b = elem, nullable, path, elem_b
 
 
-def x_alternatives(ws):
+def x_alternatives(ws, top=False):
     """Wire-first only: presence patterns of the tagged section of one flexible struct."""
     tagged = ws.tagged
     known = [f.tag for f in tagged]
@@ -176,6 +176,11 @@ def x_alternatives(ws):
     alts.append({"unknown": [[hi, b"\x01\x02\x03"]]})
     alts.append({"unknown": [[2**31 - 1, b"\xff"]]})
     alts.append({"unknown": [[hi, b"\x07"], [hi + 1, b""]]})
+    # larger payloads: two-byte size prefix, beyond a 4 KiB page, (top level only) beyond 16 bits
+    alts.append({"unknown": [[hi, b"\xa5" * 130]]})
+    alts.append({"unknown": [[hi, b"\x5a" * 4097]]})
+    if top:
+        alts.append({"unknown": [[hi, b"\xc3" * 70000]]})
     gaps = [t for t in range(0, hi) if t not in known]
     if gaps:
         alts.append({"unknown": [[gaps[0], b"\x09"]]})
@@ -204,7 +209,7 @@ def build(ws, mode="value", max_len=16384, path="", frozen_below=None, depth=0, 
             node = DefaultFirst(node, default_of(f), p)
         children.append((f.name, node))
     if mode == "wire" and ws.flexible:
-        children.append(("__x__", Leaf(f"{path}.<tags>", x_alternatives(ws))))
+        children.append(("__x__", Leaf(f"{path}.<tags>", x_alternatives(ws, top=(depth == 0)))))
     node = StructN(ws, children, path)
     if frozen_below is not None and depth > frozen_below:
         return Leaf(path, [base_value(node)])
